@@ -5,30 +5,33 @@ import vf
 
 SPECDIR = os.path.join(vf.SPEC, "transport")
 DRV = "drv_s_transport"
+ENGINE_DRV = "drv_sio_engine"       # the real TcpEngine / UdpEngine under the scheduler (vf/sched_io.cpp), judged by EngineTrace.tla
 
 
-def run_cases(ck, lines, name, nontrivial, variant=""):
+def run_cases(ck, lines, name, nontrivial, variant="", drv=None, spec="TransportTrace"):
+    drv = drv or DRV
     cp = os.path.join(ck.work, name + "_cases.txt")
     open(cp, "w").write("\n".join(lines) + "\n")
     outp = os.path.join(ck.work, name + ".ndjson")
-    rc, out = vf.run_driver(DRV + variant, ["run", cp, outp, 16], timeout=1800,
+    rc, out = vf.run_driver(drv + variant, ["run", cp, outp, 16], timeout=1800,
                             env={"ASAN_OPTIONS": "detect_leaks=0:abort_on_error=1", "TSAN_OPTIONS": "halt_on_error=1 report_signal_unsafe=0 report_thread_leaks=0 suppressions=" + os.path.join(vf.HARNESS, "tsan.supp")})
     if rc != 0:
-        raise vf.Infra("%s failed: %s" % (DRV + variant, out[-2000:]))
-    return judge(ck, outp, lines, name, nontrivial, diag=out)
+        raise vf.Infra("%s failed: %s" % (drv + variant, out[-2000:]))
+    return judge(ck, outp, lines, name, nontrivial, diag=out, spec=spec)
 
 
-def run_dfs(ck, case, bound, maxexec, name, nontrivial, variant=""):
+def run_dfs(ck, case, bound, maxexec, name, nontrivial, variant="", drv=None, spec="TransportTrace"):
+    drv = drv or DRV
     outp = os.path.join(ck.work, name + ".ndjson")
-    rc, out = vf.run_driver(DRV + variant, ["dfs", case, bound, maxexec, outp, 16], timeout=3000,
-                            env={"ASAN_OPTIONS": "detect_leaks=0:abort_on_error=1"})
+    rc, out = vf.run_driver(drv + variant, ["dfs", case, bound, maxexec, outp, 16], timeout=3000,
+                            env={"ASAN_OPTIONS": "detect_leaks=0:abort_on_error=1", "TSAN_OPTIONS": "halt_on_error=1 report_signal_unsafe=0 report_thread_leaks=0 suppressions=" + os.path.join(vf.HARNESS, "tsan.supp")})
     if rc != 0:
-        raise vf.Infra("%s dfs failed: %s" % (DRV, out[-2000:]))
+        raise vf.Infra("%s dfs failed: %s" % (drv, out[-2000:]))
     ck.note("dfs%s %s bound=%d: %s" % (variant, case[:110], bound, out.strip().splitlines()[-1] if out.strip() else ""))
-    return judge(ck, outp, None, name, nontrivial, case=case + " | dfs %d" % bound, diag=out)
+    return judge(ck, outp, None, name, nontrivial, case=case + " | dfs %d" % bound, diag=out, spec=spec)
 
 
-def judge(ck, trace_path, lines, name, nontrivial, case=None, diag=""):
+def judge(ck, trace_path, lines, name, nontrivial, case=None, diag="", spec="TransportTrace"):
     events = vf.read_ndjson(trace_path)
     execs = vf.split_executions(events)
     ck.evaluations += len(execs)
@@ -48,7 +51,7 @@ def judge(ck, trace_path, lines, name, nontrivial, case=None, diag=""):
             if crashed == 1:
                 rp = ck.save_replay("%s_crash_%d" % (name, i), {"trace.ndjson": "\n".join(json.dumps(e) for e in evs) + "\n",
                                                               "case.txt": cline(i) + "\n", "driver.out": diag[-6000:]})
-                ck.classify({"spec": "TransportTrace", "event": "Crashed"},
+                ck.classify({"spec": spec, "event": "Crashed"},
                             "execution crashed (abort / signal / sanitizer report) — %s" % cline(i), rp)
             continue
         keep.append((start, evs))
@@ -68,7 +71,7 @@ def judge(ck, trace_path, lines, name, nontrivial, case=None, diag=""):
         events = flat
         execs = vf.split_executions(events)
         lines = None
-    v = ck.validate(os.path.join(SPECDIR, "TransportTrace.tla"), os.path.join(SPECDIR, "TransportTrace.cfg"), trace_path,
+    v = ck.validate(os.path.join(SPECDIR, spec + ".tla"), os.path.join(SPECDIR, spec + ".cfg"), trace_path,
                     n_exec=len(execs))
     ck.note("%s: %d executions, crashed=%d, inconclusive=%d" % (name, len(execs), crashed, inconclusive))
     if len(execs) >= 20 and inconclusive * 3 > len(execs):
@@ -83,18 +86,20 @@ def judge(ck, trace_path, lines, name, nontrivial, case=None, diag=""):
         bad_ev = events[v.maxl - 1] if v.maxl <= len(events) else {}
         rp = ck.save_replay("%s_reject_%d" % (name, x), {
             "trace.ndjson": "\n".join(json.dumps(e) for e in evs) + "\n", "case.txt": cline(x) + "\n",
-            "why.txt": "TransportTrace.tla cannot match event %d of this execution: %s\n" % (v.maxl - start + 1, json.dumps(bad_ev))})
-        ck.classify({"spec": "TransportTrace", "event": bad_ev.get("e"), "res": bad_ev.get("res", bad_ev.get("err"))},
-                    "transport execution not explainable by the Abs transport (%s): first unmatched event %s" % (cline(x)[:230], json.dumps(bad_ev)), rp)
+            "why.txt": "%s.tla cannot match event %d of this execution: %s\n" % (spec, v.maxl - start + 1, json.dumps(bad_ev))})
+        ck.classify({"spec": spec, "event": bad_ev.get("e"), "res": bad_ev.get("res", bad_ev.get("err"))},
+                    "%s execution not explainable by %s.tla (%s): first unmatched event %s" % ("transport" if spec == "TransportTrace" else "real-engine", spec, cline(x)[:230], json.dumps(bad_ev)), rp)
         return False
     return crashed == 0
 
 
 def replay(ck, path, nontrivial=lambda evs: True):
-    ck.make(DRV)
     case = open(os.path.join(path, "case.txt")).read().strip()
     parts = [x.strip() for x in case.split("|")]
+    # cases of the real-engine driver begin with the protocol, the others with the buffer cap
+    kw = dict(drv=ENGINE_DRV, spec="EngineTrace") if parts[0].split()[0] in ("tcp", "udp") else {}
+    ck.make(kw.get("drv", DRV))
     if parts[-1].startswith("dfs"):
-        run_dfs(ck, " | ".join(parts[:2]), int(parts[-1].split()[1]), 6000, "replay", nontrivial)
+        run_dfs(ck, " | ".join(parts[:2]), int(parts[-1].split()[1]), 6000, "replay", nontrivial, **kw)
     else:
-        run_cases(ck, [case], "replay", nontrivial)
+        run_cases(ck, [case], "replay", nontrivial, **kw)
